@@ -56,11 +56,4 @@ theorem C36_tgen_bits : Extracted.bitTxn = Badger.bitTxn := by decide
 theorem C37_tgen_threshold_ops : op_writeToLSM_threshold = "<" ∧ op_modify_inmem_vallen = ">" := by decide
 theorem C04_tgen_bits : Extracted.bitDelete = Badger.bitDelete := by decide
 theorem C14_tgen_l0l0 : op_l0l0_min_tables = "<" := by decide
-theorem C17_tgen_manifest :
-    Extracted.manifestDeletionsRewriteThreshold = 10000 ∧ Extracted.manifestDeletionsRatio = 10 ∧
-    op_manifest_rewrite_threshold = ">" := by decide
-theorem C16_tgen_log : Extracted.vlogHeaderSize = 20 ∧ Extracted.maxHeaderSize = 22 ∧
-    Extracted.bitTxn = Badger.bitTxn ∧ Extracted.bitFinTxn = Badger.bitFinTxn := by decide
-theorem C09_tgen_log : Extracted.vlogHeaderSize = 20 ∧ Extracted.maxHeaderSize = 22 := by decide
-
 end Badger
